@@ -163,6 +163,9 @@ func Decide(t fataler, s *graph.Scenario, obsOrders []int, tag string) {
 	ev := in.Log.Snapshot()
 	n := len(in.Comps)
 	k := len(obsOrders)
+	if veto >= 0 {
+		k++ // the vetoing observer observes as well (it only fails for one component)
+	}
 	// per component event positions
 	type life struct {
 		before, after []int
